@@ -359,6 +359,7 @@ Theorem accepted_sound cfg facts now r id :
     mem_bytes B"host" (signed_header_names (p_signed_headers p)) = true /\
     (forall k vs, In (k, vs) (r_headers r) -> must_be_signed (to_lower k) = true ->
        mem_bytes (to_lower k) (signed_header_names (p_signed_headers p)) = true) /\
+    (needs_body_hash r (p_presigned p) = true -> r_body_err r = false) /\
     In f facts /\
     f_key f = key_of secret date (c_region cfg) B"s3" B"aws4_request" /\
     f_msg f = msg_of p date (c_region cfg) B"s3" B"aws4_request" r esc /\
@@ -369,10 +370,11 @@ Proof.
   destruct (go_escaped_path (r_path r)) as [esc|] eqn:Ee; [|discriminate].
   destruct (is_anonymous r); [discriminate|].
   apply check_auth_accept_iff in H.
-  destruct H as (p & date & region & service & term & secret & t & H1 & H2 & H3 & H4 & H5 & H6 & H7 & H8 & H9 & W1 & W2 & H10 & H11 & H12 & H13).
+  destruct H as (p & date & region & service & term & secret & t & H1 & H2 & H3 & H4 & H5 & H6 & H7 & H8 & H9 & W1 & W2 & H10 & H11 & HB & H12 & H13).
   subst region service term.
   apply verify_true in H12. destruct H12 as [f [Hf [Hk [Hm Hs]]]].
   exists esc, p, date, secret, t, f. repeat split; try assumption.
+  2: { intros Hn. rewrite Hn in HB. exact HB. }
   intros k vs Hin Hms. unfold all_sensitive_signed in H11. rewrite forallb_forall in H11.
   specialize (H11 (k, vs) Hin). cbn [fst] in H11. rewrite Hms in H11. exact H11.
 Qed.
@@ -408,6 +410,14 @@ Proof.
     destruct (go_should_escape_path _); discriminate.
 Qed.
 
+(* whenever the body is hashed at all, the payload line is the hash of the received bytes — on both sides of
+   the in-memory limit *)
+Lemma payload_line_hashed r pre : needs_body_hash r pre = true -> payload_line r pre = r_payload r.
+Proof.
+  unfold needs_body_hash, payload_line, hashed_payload. intros H. apply andb_true_iff in H. destruct H as [H1 H2].
+  apply negb_true_iff in H1, H2. rewrite H1, H2. destruct (body_store_of (r_body_len r)); reflexivity.
+Qed.
+
 Theorem altered_request_rejected cfg now r id k0 alg0 ts0 sc0 mac0 r0 esc0 names0 pre0 :
   wf_request r -> wf_request r0 -> esc0 <> [] -> r_path r <> [] ->
   middleware cfg
@@ -426,15 +436,18 @@ Theorem altered_request_rejected cfg now r id k0 alg0 ts0 sc0 mac0 r0 esc0 names
       = collect_signed_headers (r_host r0) (r_headers r0) names0 /\
     payload_line r (p_presigned p) = payload_line r0 pre0 /\
     (forall k vs, In (k, vs) (r_headers r) -> must_be_signed (to_lower k) = true ->
-       mem_bytes (to_lower k) (signed_header_names (p_signed_headers p)) = true).
+       mem_bytes (to_lower k) (signed_header_names (p_signed_headers p)) = true) /\
+    (needs_body_hash r (p_presigned p) = true -> r_body_err r = false) /\
+    (needs_body_hash r (p_presigned p) = true -> needs_body_hash r0 pre0 = true -> r_payload r = r_payload r0).
 Proof.
   intros W W0 He0 Hp H. apply accepted_sound in H.
-  destruct H as (esc & p & date & secret & t & f & H1 & H2 & H3 & H4 & H5 & H6 & H7 & W1 & W2 & H8 & H9 & Hin & Hk & Hm & Hs).
+  destruct H as (esc & p & date & secret & t & f & H1 & H2 & H3 & H4 & H5 & H6 & H7 & W1 & W2 & H8 & H9 & HB & Hin & Hk & Hm & Hs).
   destruct Hin as [<-|[]]. cbn [f_key f_msg f_mac] in *.
   unfold msg_of in Hm. inversion Hm as [[Ea Et Es Ec]]. subst k0. cbn [k_secret key_of].
   pose proof (escaped_nonempty _ _ Hp H1) as He.
   destruct (canonical_request_determines _ _ _ _ _ _ _ _ W W0 He He0 (eq_sym Ec)) as (Q1 & Q2 & Q3 & Q4 & Q5).
   exists esc, p, t. subst date. rewrite <- Et in *. repeat split; auto.
+  intros N1 N2. rewrite <- (payload_line_hashed r _ N1), <- (payload_line_hashed r0 _ N2). exact Q5.
 Qed.
 
 (* the header block depends on the header map only through (lower-cased name, ','-join of the Trimall'ed values) *)
